@@ -24,12 +24,16 @@ const RESET_QUERY: [u8; 8] = [1, 2, 0, 0, 0, 0, 0, 8];
 const HORIZON: Duration = Duration::from_secs(5);
 
 #[derive(Debug, Clone, Copy, Eq, PartialEq)]
-enum Seen { Answered(u8), Closed, Silent }
+enum Seen { Answered(u8), Closed, Silent, Refused }
 
 /// Connects, sends a Reset Query, reports what came back.
 fn probe(addr: std::net::SocketAddr, wait: Duration) -> Result<Seen, String> {
-    let mut s = TcpStream::connect_timeout(&addr, Duration::from_secs(2))
-        .map_err(|e| format!("connect: {e}"))?;
+    let mut s = match TcpStream::connect_timeout(&addr, Duration::from_secs(2)) {
+        Ok(s) => s,
+        // nobody listens any more: the listener task is gone
+        Err(e) if e.kind() == std::io::ErrorKind::ConnectionRefused => return Ok(Seen::Refused),
+        Err(e) => return Err(format!("connect: {e}")),
+    };
     s.set_read_timeout(Some(wait)).map_err(|e| e.to_string())?;
     if s.write_all(&RESET_QUERY).is_err() { return Ok(Seen::Closed) }
     let mut hdr = [0u8; 8];
@@ -77,7 +81,8 @@ fn run_seq(forced: &[bool], keepalive: Option<u64>) -> Result<String, (String, S
         q.clear();
         q.extend(forced.iter().map(|ok| !*ok));
     }
-    let all_fail = keepalive.map(|k| k > 32767).unwrap_or(false);
+    // The kernel accepts 1..=32767 seconds.
+    let all_fail = keepalive.map(|k| k == 0 || k > 32767).unwrap_or(false);
     let desc = format!("set-up outcomes {:?}{}", forced.iter().map(|ok| if *ok { "ok" } else { "fail" }).collect::<Vec<_>>(),
         if all_fail { " with a keepalive time the kernel rejects" } else { "" });
     let mut res = Ok(String::new());
@@ -98,7 +103,7 @@ fn run_seq(forced: &[bool], keepalive: Option<u64>) -> Result<String, (String, S
             // a failed set-up: the connection is dropped; being left
             // hanging in the accept queue means the listener stopped
             (false, Seen::Closed) => { }
-            (false, Seen::Silent) => {
+            (false, Seen::Silent) | (false, Seen::Refused) => {
                 res = Err(("listener-stopped".to_string(), format!(
                     "{desc}: connection {i} was neither served nor closed within 1.5 s (listener no longer accepting); earlier: {log:?}"
                 )));
@@ -160,18 +165,23 @@ pub fn run(ctx: &Ctx) -> Report {
         fresh connection must get a Cache Response / Error Report within \
         {HORIZON:?}; failing connections must be closed, not left \
         hanging; second family without hook: rtr-tcp-keepalive 40000 \
-        (rejected by the kernel) and 60 (accepted) for 1..3 connections; \
+        (rejected by the kernel) and 60 (accepted) for 1..3 connections, \
+        and 0, 1, 32767, 32768, 2^32-1, 2^32, 2^64-1 for two connections; \
         non-trivial = sequences with at least one failing set-up");
-    rep.bound = format!("{} forced sequences + 6 keepalive runs", seqs.len());
+    rep.bound = format!("{} forced sequences + 13 keepalive runs", seqs.len());
     // One listener at a time: the forced-outcome queue is process wide.
     let mut cases: Vec<(Vec<bool>, Option<u64>)> = seqs.into_iter().map(|s| (s, None)).collect();
     for n in 1..=3 {
         cases.push((vec![true; n], Some(40000)));
         cases.push((vec![true; n], Some(60)));
     }
+    // every class of value the option accepts (a u64 number of seconds)
+    for k in [0u64, 1, 32767, 32768, u32::MAX as u64, u32::MAX as u64 + 1, u64::MAX] {
+        cases.push((vec![true, true], Some(k)));
+    }
     for (forced, keepalive) in &cases {
         rep.evaluations += 1;
-        if forced.iter().any(|x| !*x) || keepalive.map(|k| k > 32767).unwrap_or(false) { rep.nontrivial += 1 }
+        if forced.iter().any(|x| !*x) || keepalive.map(|k| k == 0 || k > 32767).unwrap_or(false) { rep.nontrivial += 1 }
         match util::catch(|| run_seq(forced, *keepalive)).unwrap_or_else(|p| Err(("panic".into(), p))) {
             Ok(o) => rep.outcome(o),
             Err((class, msg)) if class == "harness" => {
